@@ -102,9 +102,11 @@ def exit_rules(ctx, I, restrict, label):
                        detail=detail)
             continue
         # Z ordering against the decided order of new and remembered Z
+        # the printer is physically at the remembered native Z and has to end at the tracked native Z: their order decides where
+        # the Z move goes.  (Comparing the two as logical values is the same thing only while both are read in one frame -
+        # the snapshot keeps the unit factor / offsets of the entry, which a G20/G21 inside the episode changes.)
         newz = axis_logical(I, POS + '.Z_AXIS')
-        oldz = axis_logical(I, LAST + '.Z_AXIS')
-        signs = I.infer_signs(p.st, newz - oldz)
+        signs = I.infer_signs(p.st, Poly.sym(POS + '.Z_AXIS.current') - Poly.sym(LAST + '.Z_AXIS.current'))
         moves = [n for n in names if n in ('z', 'xy')]
         if moves == ['z', 'xy']:
             want = {1}
@@ -115,7 +117,9 @@ def exit_rules(ctx, I, restrict, label):
         if not (set(signs) <= want):
             ctx.report('C03.R1', 'ExcludeRegionState.exitExcludedRegion',
                        'moves %s with sign(newZ-oldZ) in %s' % ('+'.join(moves), sorted(signs)),
-                       'Z must be raised before the X/Y travel and lowered after it (travel at the higher Z)',
+                       'Z must be raised before the X/Y travel and lowered after it (travel at the higher Z); the order of the '
+                       'physical heights (remembered native Z versus tracked native Z) is not what the path decided - for example '
+                       'because the two heights are compared as logical values read in different unit / offset frames',
                        detail=detail)
         # R4: values
         expect = {'E': axis_logical(I, POS + '.E_AXIS'), 'X': axis_logical(I, POS + '.X_AXIS'),
@@ -312,14 +316,14 @@ def leaving_rule(col, gcode, p, f, I):
                                    'the printer is not re-positioned in %s' % letter, detail=detail)
                         continue
                     # no Z move: the printer stays at the height remembered at entry, which must be the file's height now
-                    oldz = axis_logical(I, LAST + '.Z_AXIS')
+                    oldz = Poly.sym(LAST + '.Z_AXIS.current')       # native height the printer is physically at
                     st2 = p.st
-                    signs = I.infer_signs(st2, want - oldz)
+                    signs = I.infer_signs(st2, finals[0].p - oldz)
                     if set(signs) != {0}:
                         col.report('C03.R8', 'ExcludeRegionState.exitExcludedRegion',
                                    '%s leaves the region without a Z move although the final Z may differ from the remembered Z' % gcode,
-                                   'the printer stays at the height it had when the episode began (%r) but the file is at %r '
-                                   'after this command; sign of the difference on this path: %s' % (oldz, want, sorted(signs)),
+                                   'the printer stays at the native height it had when the episode began (%r) but the file is at '
+                                   'native %r after this command; sign of the difference on this path: %s' % (oldz, finals[0].p, sorted(signs)),
                                    detail=detail)
                     continue
                 for g in got:
